@@ -137,6 +137,15 @@ CHECKS.update({
         "DESIGN.md §2 C13",
     ),
 })
+CHECKS.update({
+    "C08": (
+        "fault_enumeration",
+        "Hypothesis-drawn cache-writing workloads; exhaustive SIGKILL injection (strace) at every file-system syscall of each workload; oracle = next use raises or equals fresh-cache / old-or-new product",
+        "Fault enumeration over crash points: each generated workload instance is traced to list its file-system syscalls on the cache paths and is then killed on entry of every one of them (each point between two operations exactly once); every distinct surviving directory tree is used the way a user would (open, measure with the interrupted and the previous binning, read result files) in an isolated child and compared with fresh caches.",
+        "process death at syscall granularity (no torn writes, no power-loss reordering); sequential mode; strace -P path filtering as verified in this sandbox",
+        "DESIGN.md §2 C08",
+    ),
+})
 NOT_YET = {}
 
 props = [json.loads(l) for l in (VERIF / "properties.jsonl").read_text().splitlines() if l.strip()]
